@@ -49,7 +49,7 @@ REFINES = {"DEV_GraphiteHistogramFirstLabelSet": "RefinesGraphite", "DEV_JsonFai
 def presets(ctx):
     two = dict(hosts=["h", "host-1"], prefixes=["", "pfx."])
     P = [
-        ("bfs-one-metric", dict(mm=1, ml=2, mk=1, mo=1, names=["foo"], kts=expo.KT_ALL, keys=["k1"], lvals=["a", "b"],
+        ("bfs-one-metric", dict(mm=1, ml=2, mk=1, mo=1, names=["foo"], kts=expo.KT_ALL, keys=["k1"], lvals=["a", "pct"],
                                 itoks=["small"], ftoks=["small", "nan"], bounds=["b12"], obs=[0, 3], **two), None, None),
         ("bfs-values", dict(mm=1, ml=1, mk=0, mo=2, names=["bar_x"], kts=expo.KT_SCALAR + ["HistogramBuckets"],
                             itoks=expo.INT_TOKS, ftoks=expo.FLOAT_TOKS, bounds=["b12", "b0510", "none"], obs=[0, 2, 7]), None, None),
@@ -57,7 +57,7 @@ def presets(ctx):
                                     keys=["k1"], lvals=["a", "b"], bounds=["b12"], obs=[3]), None, None),
     ]
     sim = dict(mm=3, ml=3, mk=2, mo=3, names=["foo", "bar_x", "baz"], progs=["p1", "p2"], kts=expo.KT_ALL, keys=["k1", "k2", "k3"],
-               lvals=["a", "b", "c"], itoks=expo.INT_TOKS, ftoks=expo.FLOAT_TOKS, bounds=["b12", "b0510", "none"],
+               lvals=["a", "b", "pct"], itoks=expo.INT_TOKS, ftoks=expo.FLOAT_TOKS, bounds=["b12", "b0510", "none"],
                obs=[0, 1, 2, 3, 7, 11], **two)
     if ctx.thorough:
         P.append(("bfs-one-metric-2keys", dict(mm=1, ml=2, mk=2, mo=2, names=["foo"], kts=expo.KT_ALL, keys=["k1", "k2"],
